@@ -10,7 +10,7 @@
    covers worktree operations that fail part-way (they simply stop before
    their SetIndex). *)
 From Coq Require Import List NArith Bool String.
-From GoGit Require Import Base.Out Model.IndexCache Proofs.C20.
+From GoGit Require Import Base.Out Model.IndexCache Model.IndexCacheExt Proofs.C20 Proofs.C20Ext.
 Import ListNotations.
 
 (* G as repaired ("fix: copy the entries in copyIndex", deep = true): after EVERY
@@ -41,6 +41,33 @@ Print Assumptions C20_inv_partial.
 Theorem C20_deepcopy_restores : fst (read_now true (run true alias_witness)) = [(1%N, 10%N)].
 Proof. exact deep_alias_witness. Qed.
 Print Assumptions C20_deepcopy_restores.
+
+(* ---- the extension pointers (Cache, ResolveUndo, EndOfIndexEntry) of the cached Index ----
+   Model/IndexCacheExt.v: an Index is abstracted to "reports extension data"; the decoder sets it when
+   the file carries TREE / REUC / EOIE, the encoder writes none (C12).
+   G as repaired ("fix: SetIndex caches an index without the extensions it did not write", fixed = true):
+   after EVERY history Index() reports extensions exactly when the file has them. *)
+Theorem C20_ext_inv : forall ops, ereads_disk (erun true ops) /\ einv (erun true ops).
+Proof. exact ext_fixed_all_histories. Qed.
+Print Assumptions C20_ext_inv.
+
+(* FALSE for the tree as found (fixed = false): read an index that carries a TREE extension, write it back:
+   the file SetIndex wrote has no extension, the cached copy still reports one *)
+Theorem C20_ext_stale_refuted :
+  fst (eread_now (erun false stale_witness)) = true /\ edisk_ext (erun false stale_witness) = false.
+Proof. exact ext_stale_refuted. Qed.
+Print Assumptions C20_ext_stale_refuted.
+
+(* ... and TRUE of the tree as found as long as no other program writes an index with extensions *)
+Theorem C20_ext_inv_partial : forall ops, no_ext ops = true -> ereads_disk (erun false ops).
+Proof. exact ext_unfixed_without_extensions. Qed.
+Print Assumptions C20_ext_inv_partial.
+
+Example C20_ext_history :
+  let s := erun true [EExternal true; EIndex; ENop; ESetIndex 0; EIndex; EExternal true; EIndex; EDrop 2; EExtDelete; EIndex] in
+  ehandles s = [true; false; false; false] /\ fst (eread_now s) = false /\
+  fst (eread_now (erun true [EExternal true; EIndex; ESetIndex 0; EExternal true])) = true.
+Proof. vm_compute. repeat split. Qed.
 
 (* non-vacuity: a history with every kind of operation, ending in a state with a live cache *)
 Example C20_history :
